@@ -105,7 +105,11 @@ decreasing_by all_goals (simp_wf; try omega)
     inside, non-ASCII) must give a query that is true of its entry. -/
 def breaksLiteral (q : String) : Bool :=
   -- a conjunction of clauses (kafka summaries): clause by clause
-  let clauses := (q.splitOn "\" and ").map fun c => if c.endsWith "\"" then c else c ++ "\""
+  -- the split takes the closing quote off every clause but the last; the last one is the text as it stands
+  -- (a query that does not end in a quote - `path.startsWith("...")` - must not be given one: the text between
+  -- its first and last quote would then hold the real closing quote and pass for the recorded finding)
+  let pieces := q.splitOn "\" and "
+  let clauses := (pieces.dropLast.map fun c => c ++ "\"") ++ pieces.getLast?.toList
   clauses.any fun c =>
     let body := literalBody c
     body.contains '"' || body.contains '\n' || body.contains (Char.ofNat 0) || escBreaks body
